@@ -1319,7 +1319,8 @@ impl<'a, 'b, W: Write> Serializer for &'a mut YamlSerializer<'b, W> {
                 // Serialize the value, then emit an empty line after (only in block style).
                 let result = value.serialize(&mut *self)?;
                 // After a keep-chomped block scalar an empty line would become part of its value.
-                let after_keep_block = std::mem::take(&mut self.last_block_keep);
+                // (the flag stays set for an enclosing SpaceAfter: nothing has been written since)
+                let after_keep_block = self.last_block_keep;
                 if self.in_flow == 0 && !after_keep_block {
                     // Emit an extra blank line after the value
                     self.newline()?;
